@@ -71,5 +71,19 @@ func (p suffixedPartition) IntermediateKeyID() string {
 
 // IsValidIntermediateKeyID ensures the given ID is a valid intermediate key ID for this partition.
 func (p suffixedPartition) IsValidIntermediateKeyID(id string) bool {
-	return id == p.IntermediateKeyID() || strings.Index(id, p.defaultPartition.IntermediateKeyID()) == 0
+	if id == p.IntermediateKeyID() {
+		return true
+	}
+
+	base := p.defaultPartition.IntermediateKeyID()
+	if id == base {
+		// key IDs without suffixes are valid to maintain backwards compatibility
+		return true
+	}
+
+	// key IDs of this partition written in another region carry exactly one more segment (the region suffix).
+	// Anything longer belongs to a different partition whose ID merely starts with ours.
+	suffix, ok := strings.CutPrefix(id, base+"_")
+
+	return ok && suffix != "" && !strings.Contains(suffix, "_")
 }
